@@ -202,16 +202,225 @@ def alias_par(rng, r, X, j):
     return par
 
 
-def gen_cases(rows, seed, ncalls, nalias, huge=True):
+
+# ------------------------------------------------------------------------------------------------- offset / index array families
+def _uniform(L, st, base):
+    return [base + st * k for k in range(L)]
+
+
+def lane_subsets(L):
+    """named sets of lanes on which an offset array AGREES with a packed / uniform array (it deviates on the other lanes)"""
+    h = L // 2
+    return [('ends', [0, L - 1]), ('first_half', list(range(h))), ('second_half', list(range(h, L))), ('even', list(range(0, L, 2))),
+            ('odd', list(range(1, L, 2))), ('none', []), ('first', [0]), ('last', [L - 1]), ('all_but_1', [k for k in range(L) if k != 1]),
+            ('all_but_L-2', [k for k in range(L) if k != L - 2]), ('first2', [0, 1]), ('last2', [L - 2, L - 1]), ('ends+1', [0, 1, L - 1])]
+
+
+def deviate(rng, U, S, mode, w, out):
+    """the array that equals U on the lanes S; on the other lanes D:
+       perm   the U-values of D permuted among D (not the identity)          rev    ... in reverse order
+       sparse distinct positions outside the range of U (above it; below it when there is room), w cells each, never
+              overlapping each other or U
+       equal  (inputs) the value of the first entry                           shift  (inputs) U + 1 (misaligned, overlapping)
+    -> list, or None when the mode does not apply (fewer than two deviating lanes for perm / rev)"""
+    L = len(U)
+    D = [k for k in range(L) if k not in S]
+    v = list(U)
+    if not D:
+        return None
+    if mode in ('perm', 'rev'):
+        if len(D) < 2:
+            return None
+        if mode == 'rev':
+            src = list(reversed(D))
+        else:
+            while True:
+                src = perm(rng, D)
+                if src != D:
+                    break
+        for k, q in zip(D, src):
+            v[k] = U[q]
+    elif mode == 'sparse':
+        top = max(U) + w
+        g = max(w, 3) + rng.below(3)
+        lo_room = min(U) // g          # slots t*g .. t*g+w-1 entirely below min(U)
+        ts = perm(rng, range(40))[:len(D)]
+        lows = perm(rng, range(lo_room)) if lo_room else []
+        for n_, k in enumerate(D):
+            if lows and rng.below(3) == 0:
+                v[k] = lows.pop() * g
+            else:
+                v[k] = top + rng.below(3) + g * ts[n_] + (3 if out else 0)
+        if out:   # keep the far result slots clear of each other and of U whatever the offsets drawn above
+            used = {v[k] for k in S}
+            for k in D:
+                while any(abs(v[k] - u) < 3 for u in used):
+                    v[k] += 3
+                used.add(v[k])
+    elif mode == 'equal':
+        if out:
+            return None
+        for k in D:
+            v[k] = U[0]
+        if v == list(U):
+            return None
+    elif mode == 'shift':
+        if out:
+            return None
+        for k in D:
+            v[k] = U[k] + 1
+    return v
+
+
+def _injective(v, w=3):
+    return all(abs(x - y) >= w for i, x in enumerate(v) for y in v[i + 1:])
+
+
+def family_lists(rng, L, w, out, thorough=False):
+    """structured offset arrays for one per-element offset parameter (w = 3: extension elements, 1: base-field elements);
+    out: result offsets (3-cell slots pairwise disjoint).  -> [(family name, list)]"""
+    res = []
+    sts = [w, w + 1, 7] if w == 3 else [1, 3, 4]
+    bases = [0, 5, 40]
+    n = 0
+    for name, S in lane_subsets(L):
+        modes = ['perm', 'sparse', 'rev']
+        if not out and (thorough or name in ('ends', 'first_half', 'second_half', 'none', 'all_but_1', 'last')):
+            modes += ['equal', 'shift']
+        for mode in modes:
+            # the packed reference (st = w) every time, another uniform reference every third time
+            combos = [(sts[0], bases[n % 3])] + ([(sts[1 + (n // 3) % 2], bases[(n + 1) % 3])] if n % 3 == 0 else [])
+            if thorough:
+                combos = [(st, b) for st in sts for b in bases]
+            n += 1
+            for st, b in combos:
+                v = deviate(rng, _uniform(L, st, b), S, mode, w, out)
+                if v is not None:
+                    res.append(('%s/%s/st%d+%d' % (name, mode, st, b), v))
+    for st in sts:
+        U = _uniform(L, st, bases[n % 3]); n += 1
+        res.append(('descending/st%d' % st, list(reversed(U))))
+        r_ = 1 + rng.below(L - 1)
+        res.append(('rotated/st%d' % st, U[r_:] + U[:r_]))
+        k = rng.below(L - 1)
+        sw = list(U); sw[k], sw[k + 1] = sw[k + 1], sw[k]
+        res.append(('adjacent_swap/st%d' % st, sw))
+    slots = sorted(perm(rng, range(300))[:L], reverse=True)
+    res.append(('descending/sparse', [3 * t + 2 for t in slots]))
+    if not out:
+        U = _uniform(L, sts[0], 0)
+        res.append(('first=last/packed_middle', U[:-1] + [U[0]]))
+        res.append(('first=last/sparse_middle', [7] + [20 + 5 * t for t in perm(rng, range(30))[:L - 2]] + [7]))
+        res.append(('all_equal', [4] * L))
+        res.append(('first=last/descending_middle', [U[-1]] + list(reversed(U[1:-1])) + [U[-1]]))
+    if out:
+        for nm, v in res:
+            assert _injective(v), (nm, v)
+    return res
+
+
+def family_random(rng, L, w, out):
+    """one random member: random agreeing subset, random deviation, random uniform reference"""
+    while True:
+        S = [k for k in range(L) if rng.below(2)]
+        mode = ['perm', 'sparse', 'rev', 'equal', 'shift'][rng.below(3 if out else 5)]
+        st = ([w, w, w + 1, 7, 1000] if w == 3 else [1, 1, 3, 4, 7])[rng.below(5)]
+        b = [0, 0, 1, 5, 40, 999][rng.below(6)]
+        v = deviate(rng, _uniform(L, st, b), S, mode, w, out)
+        if v is not None and (not out or _injective(v)):
+            return ('random/%s/st%d+%d' % (mode, st, b), v)
+
+
+IDXP = (('a', 'ia'), ('b', 'ib'), ('c', 'ic'))
+
+
+def index_ops(r):
+    return [X for X in 'abc' if r[X]['kind'] == 'index']
+
+
+def family_cases(rng, r, thorough):
+    """-> [(par, family tag)] for a row with at least one per-element offset array"""
+    L = r['L']
+    ops = index_ops(r)
+    lists = {}
+    for X in ops:
+        w = 3 if r[X]['elem'] == 'ext' else 1
+        fl = family_lists(rng, L, w, X == 'c', thorough)
+        fl += [family_random(rng, L, w, X == 'c') for _ in range(200 if thorough else 8)]
+        lists[X] = fl
+    n = max(len(v) for v in lists.values())
+    out = []
+    for j in range(n):
+        par = base_par(rng, r, j)
+        tags = []
+        for q, X in enumerate(ops):
+            fl = lists[X]
+            nm, v = fl[(j + 7 * q) % len(fl)]       # two offset arrays of one row walk their families out of step
+            par['i' + X] = list(v)
+            tags.append('%s:%s' % (X, nm))
+        out.append((par, ' '.join(tags)))
+    return out
+
+
+def shareable(r):
+    """both inputs are arrays / in-memory constants: they may be the same object (same base pointer)"""
+    mem = lambda d: d['kind'] in G.ARRK or (d['kind'] == 'const' and d['elem'] == 'ext')
+    return mem(r['a']) and mem(r['b'])
+
+
+def share_par(rng, r, j):
+    """a and b share the base pointer; equal or nearly equal strides / offset arrays"""
+    L = r['L']
+    par = base_par(rng, r, j)
+    ka, kb = r['a']['kind'], r['b']['kind']
+    wb = 3 if r['b']['elem'] == 'ext' else 1
+    if ka == 'stride' and kb == 'stride':
+        k = j % 4
+        if k == 0:
+            par['sb'] = par['sa']
+        elif k == 1:
+            par['sb'] = par['sa'] + 1
+        elif k == 2:
+            par['sa'] = par['sb'] + 1
+    elif ka == 'index' and kb == 'index':
+        k = j % 6
+        ia = par['ia']
+        if k == 0:
+            par['ib'] = list(ia)
+        elif k == 1:
+            par['ib'] = list(ia); q = rng.below(L); par['ib'][q] += 1
+        elif k == 2:
+            par['ib'] = list(ia); q = rng.below(L - 1); par['ib'][q], par['ib'][q + 1] = par['ib'][q + 1], par['ib'][q]
+        elif k == 3:
+            par['ib'] = [v + wb for v in ia]
+        elif k == 4:
+            par['ib'] = list(reversed(ia))
+    return par
+
+
+# histories: one letter per call (harness/layout16/rt16.cpp mutate_vals); every row gets the fixed ones, rows with offset
+# arrays also HIST_INDEX (the offset arrays are permuted in place between calls)
+HIST_FIXED = ['fpxoapxo', '0120cppx', 'snnpx210']
+HIST_INDEX = 'fikixipo'
+HIST_ALIAS = 'fpx01n'
+HIST_ALPHABET = 'fpxoanscrk012'
+
+
+def random_hist(rng, n, index):
+    al = HIST_ALPHABET + ('iii' if index else '')
+    return ''.join(al[rng.below(len(al))] for _ in range(n))
+
+
+def gen_cases(rows, seed, ncalls, nalias, huge=True, tier='quick'):
     rng = vlib.Rng(seed ^ 0xC16)
     cs = []
     ci = 0
 
-    def emit(r, par, j, al):
+    def emit(r, par, j, al, hist='-', share=0, g=None):
         nonlocal ci
         ci += 1
         lst = lambda v: ','.join(str(x) for x in v) if v is not None else '-'
-        cs.append((ci, r['id'], '0x%x' % rng.next(), 1 if j % 4 == 1 else 0, par['sa'], par['sb'], par['sc'], lst(par['ia']), lst(par['ib']), lst(par['ic']), al))
+        cs.append((ci, r['id'], '0x%x' % (g or rng).next(), 1 if j % 4 == 1 else 0, par['sa'], par['sb'], par['sc'], lst(par['ia']), lst(par['ib']), lst(par['ic']), al, hist, share))
     for r in rows:
         for j in range(ncalls):
             emit(r, base_par(rng, r, j), j, 'none')
@@ -227,7 +436,32 @@ def gen_cases(rows, seed, ncalls, nalias, huge=True):
                         par = base_par(rng, r, j)
                         par['s' + X] = hs
                         emit(r, par, j, 'none')
-    return cs
+    # ---- call histories, offset-array families, inputs sharing a base pointer (their own generator: the cases above do
+    # not depend on how many of these there are)
+    g = vlib.Rng(seed ^ 0xC16B)
+    th = tier != 'quick'
+    groups = dict(history=[], family={}, shared=[])
+    for r in rows:
+        idx = bool(index_ops(r))
+        hs = list(HIST_FIXED) + ([HIST_INDEX] if idx else [])
+        if th:
+            hs += [random_hist(g, 12, idx) for _ in range(10)]
+        for j, h in enumerate(hs):
+            emit(r, base_par(g, r, j + (3 if idx else 0)), j, 'none', h, 0, g)
+            groups['history'].append(ci)
+        for X in G.alias_modes(r):
+            for j, h in enumerate([HIST_ALIAS] + ([random_hist(g, 10, idx) for _ in range(3)] if th else [])):
+                emit(r, alias_par(g, r, X, j), j, X, h, 0, g)
+                groups['history'].append(ci)
+        if idx:
+            for j, (par, tag) in enumerate(family_cases(g, r, th)):
+                emit(r, par, j, 'none', '-', 0, g)
+                groups['family'][ci] = tag
+        if shareable(r):
+            for j in range(36 if th else 6):
+                emit(r, share_par(g, r, j), j, 'none', '-', 1, g)
+                groups['shared'].append(ci)
+    return cs, groups
 
 
 def write_cases(path, cases):
@@ -265,6 +499,11 @@ def describe(rec, row):
     u = vlib.unw64
     msgs = []
     L = row['L']
+    if rec.get('hn', 1) > 1:
+        msgs.append('call %d of a history of %d calls on the same buffers (operand contents overwritten in place, step kind %r); operands are '
+                    'the values at this call' % (rec['hs'], rec['hn'], rec.get('hk')))
+    if rec.get('sh'):
+        msgs.append('a and b are the same array (same pointer)')
     if rec.get('al', 'none') != 'none':
         msgs.append('called in place (result is the same object as operand %s; operands are the values before the call)' % rec['al'])
     for X in 'ab':
@@ -338,8 +577,8 @@ def run(tier, seed, replay=None):
         cfg = 'MC_Layout16_run.cfg'
         open(os.path.join(wd, cfg), 'w').write(open(os.path.join(wd, 'MC_Layout16.cfg')).read().replace('BSub = TRUE', 'BSub = %s' % ('TRUE' if tier == 'quick' else 'FALSE')))
         r = tlc(wd, 'MC_Layout16', cfg, workers=8, timeout=1500)
-        ck.add_tlc(r, 'MC_Layout16: 156 rows well-formed; footprints/extents/disjointness of every descriptor (4, 8 lanes, strides 0..7, index lists); '
-                      'over F_13^3: Karatsuba forms with challenge sums and mixed-shape shortcuts = definition (%s second operands)' % ('generating subset of' if tier == 'quick' else '650'))
+        ck.add_tlc(r, 'MC_Layout16: 156 rows well-formed; footprints/extents/disjointness of every descriptor (4, 8 lanes, strides 0..7, index lists '
+                      'incl. arrays that look packed at their ends / on one half only); inputs sharing one array; over F_13^3: Karatsuba forms with challenge sums and mixed-shape shortcuts = definition (%s second operands)' % ('generating subset of' if tier == 'quick' else '650'))
         if not r.ok:
             ck.note('model-level: MC_Layout16: %s' % (r.violated or r.error))
     variants = ['avx2'] + (['avx512'] if vlib.have_avx512() else [])
@@ -358,9 +597,10 @@ def run(tier, seed, replay=None):
             build_notes.append(note)
     ncalls, nalias = (96, 16) if tier == 'quick' else (400, 60)
     if replay:
-        cases = [tuple(c) if len(c) > 10 else tuple(c) + ('none',) for c in json.load(open(replay))['case']['cases']]
+        cases = [tuple(c) + ('none', '-', 0)[max(0, len(c) - 10):] for c in json.load(open(replay))['case']['cases']]
+        groups = dict(history=[], family={}, shared=[])
     else:
-        cases = gen_cases(built, seed, ncalls, nalias)
+        cases, groups = gen_cases(built, seed, ncalls, nalias, tier=tier)
     t0 = time.time()
     traces = []
     for v in variants:
@@ -411,6 +651,12 @@ def run(tier, seed, replay=None):
             kind = 'crash' if rec2.get('e') == 'crash' else 'mismatch'
             if case[10] != 'none':
                 kind += ' in-place(result=%s)' % case[10]
+            if len(case) > 11 and case[11] != '-':
+                kind += ' history(%s)' % case[11]
+            if len(case) > 12 and str(case[12]) == '1':
+                kind += ' shared-inputs'
+            if case[0] in groups['family']:
+                kind += ' offsets(%s)' % groups['family'][case[0]]
             ck.violation('%s %s case=%s' % (rid, kind, ' '.join(str(x) for x in case[2:])),
                          '%s (header line %d, %s): %s' % (rid, row['line'], row['sig'], describe(rec2, row)),
                          dict(cases=[list(case)], event=vlib.compact(rec2)))
@@ -436,6 +682,20 @@ def run(tier, seed, replay=None):
     ck.cov['in_place_calls'] = dict(result_is_a=sum(1 for x in l16 if x['al'] == 'a'), result_is_b=sum(1 for x in l16 if x['al'] == 'b'),
                                     rows_with_in_place_mode=sum(1 for r in rows if G.alias_modes(r)),
                                     rows_called_in_place=len({x['id'] for x in l16 if x['al'] != 'none'}))
+    hist = [x for x in l16 if x.get('hn', 1) > 1]
+    ck.cov['history_calls'] = dict(calls=len(hist), histories=len({x['ci'] for x in hist}), rows=len({x['id'] for x in hist}),
+                                   in_place=sum(1 for x in hist if x['al'] != 'none'),
+                                   step_kinds={k: sum(1 for x in hist if x.get('hk') == k) for k in sorted({x.get('hk') for x in hist})})
+    famc = {}
+    for ci_, tag in groups['family'].items():
+        for part in tag.split(' '):
+            X, nm = part.split(':', 1)
+            key = ('result ' if X == 'c' else 'input ') + '/'.join(nm.split('/')[:2])
+            famc[key] = famc.get(key, 0) + 1
+    ck.cov['offset_family_calls'] = dict(calls=len(groups['family']), rows=len({x['id'] for x in l16 if x['ci'] in groups['family']}),
+                                         rows_with_offset_array=sum(1 for r in rows if index_ops(r)), families=famc)
+    ck.cov['shared_input_calls'] = dict(calls=sum(1 for x in l16 if x.get('sh')), rows=len({x['id'] for x in l16 if x.get('sh')}),
+                                        rows_with_two_memory_inputs=sum(1 for r in rows if shareable(r)))
     nh = sum(1 for x in l16 if x['wa'] or x['wb'])
     ck.cov['huge_stride_calls'] = dict(calls=nh, rows=len({x['id'] for x in l16 if x['wa'] or x['wb']}), strides=[str(h) for h in HUGE],
                                        rows_with_stride_input=sum(1 for r in rows if 'stride' in (r['a']['kind'], r['b']['kind'])),
